@@ -304,6 +304,8 @@ def evaluate():
     facts["dispatch_in_try"] = bool(beh.get("dispatch")) and syn.get("dispatch") != "violated"
     facts["print_in_try"] = bool(beh.get("print")) and syn.get("print") != "violated"
     facts["str_guarded"] = bool(beh.get("str")) and syn.get("str") != "violated"
+    # --- what lies between a pathway's value and the caller: the result containers (Model/MitoBox.lean) -----------
+    facts["box"] = behavioural_container_facts(M, facts["notes"])
     facts["ok"] = True
     return facts
 
@@ -424,6 +426,140 @@ def behavioural_handler_facts(M, notes):
     return out
 
 
+def _same_value(a, b) -> bool:
+    """the caller received `b` where the pathway produced `a`: the very object, or an equal one of the same type
+    (a container may copy; it may not cut, pad, round, clamp or convert)"""
+    if a is b:
+        return True
+    if type(a) is not type(b):
+        return False
+    if isinstance(a, float):
+        return a.hex() == b.hex() if a == a else b != b
+    if isinstance(a, (list, tuple)):
+        return len(a) == len(b) and all(_same_value(x, y) for x, y in zip(a, b))
+    try:
+        return bool(a == b)
+    except Exception:  # noqa
+        return False
+
+
+def behavioural_container_facts(M, notes):
+    """Drive the real `metabolize` / `digest_glucose` with SENTINEL values bound to an allow-listed name, returned by an
+    allow-listed function and by a registered tool; never raises.
+    -> {"value": the caller's result.atp.value is the sentinel, "text": digest_glucose returns exactly str(sentinel),
+        "builds": building results never raises (long failure histories, extreme timeouts, direct construction)}"""
+    import contextlib
+    import io
+    out = {"value": False, "text": False, "builds": False}
+    try:
+        cls = M.Mitochondria
+        P = M.MetabolicPathway
+
+        class Opaque:
+            pass
+
+        class Long:
+            def __init__(self, n):
+                self.n = n
+
+            def __str__(self):
+                return "z" * self.n
+        big = 10 ** 5000
+        sentinels = ["q" * 5000, "\u00e9\n" * 2049, "ab" * 40000, "".join(["x"] * 1048577), "a" * 4096, "a" * 4097,
+                     [0] * 5000, ["ab" * 3000], list(range(70000)), tuple(range(4097)), ("q" * 5000, 1), big, -big,
+                     2 ** 70000, 2 ** 63, -(2 ** 63) - 1, float("nan"), float("inf"), -0.0, 1e308, 5e-324, 0.1 + 0.2,
+                     123456.789012345678, True, False, None, 0, "", [], (), b"x" * 5000, 3 + 4j, Opaque(),
+                     [[1, [2.5, ("n" * 4097,)]]], {"k": "v" * 5000}]
+        okv = True
+        with contextlib.redirect_stdout(io.StringIO()):
+            for silent in (True, False):
+                for s in sentinels:
+                    m = cls(silent=silent, max_ros=1e9)
+                    m.SAFE_FUNCTIONS = {"s": s, "f": (lambda *a, _s=s, **k: _s)}
+                    m.register_function("t", (lambda *a, _s=s, **k: _s))
+                    probes = [("s", P.GLYCOLYSIS), ("s", None), ("f()", P.GLYCOLYSIS), ("f(1, k=2)", None),
+                              ("s if 1 else 0", P.GLYCOLYSIS), ("0 or s", P.GLYCOLYSIS), ("t()", None),
+                              ("t(1, k=2)", P.OXIDATIVE), ("f(f())", P.GLYCOLYSIS)]
+                    for (src, pw) in probes:
+                        r = m.metabolize(src, pw)
+                        if not (getattr(r, "success", None) is True and getattr(r, "atp", None) is not None
+                                and _same_value(s, r.atp.value)):
+                            okv = False
+                            notes.append(f"container probe {src!r}/{pw}: a {type(s).__name__} value did not reach the caller "
+                                         "as it was produced")
+                            break
+                    try:
+                        want = bool(s)
+                    except Exception:  # noqa
+                        want = None
+                    if want is not None:
+                        r = m.metabolize("s", P.KREBS_CYCLE)
+                        if not (getattr(r, "success", None) is True and r.atp is not None and r.atp.value is want):
+                            okv = False
+                            notes.append(f"container probe logic: bool of a {type(s).__name__} value did not reach the caller")
+                    if isinstance(s, (str, list, tuple)) and len(repr(s)) <= 9000:
+                        r = m.metabolize(repr(s), P.BETA_OXIDATION)
+                        if not (getattr(r, "success", None) is True and r.atp is not None and _same_value(s, r.atp.value)):
+                            okv = False
+                            notes.append(f"container probe transform: a {type(s).__name__} literal did not reach the caller")
+        out["value"] = okv
+
+        okt = True
+        with contextlib.redirect_stdout(io.StringIO()):
+            for s in sentinels + [Long(4097), Long(5000), Long(70000), Long(1048577)]:
+                try:
+                    want = str(s)
+                except Exception:  # noqa   (ints beyond the conversion limit: the guard's business, fact strGuarded)
+                    continue
+                m = cls(silent=True)
+                m.SAFE_FUNCTIONS = {"s": s, "f": (lambda *a, _s=s, **k: _s)}
+                for src in ("s", "f()", "s if 1 else 0"):
+                    got = m.digest_glucose(src)
+                    if not (isinstance(got, str) and got == want):
+                        okt = False
+                        notes.append(f"digest_glucose({src!r}) is not str() of a {type(s).__name__} value")
+                        break
+        out["text"] = okt
+
+        okb = True
+        Result = getattr(M, "MetabolicResult", None)
+        with contextlib.redirect_stdout(io.StringIO()):
+            try:
+                for (timeout, max_ros) in ((5.0, 1e9), (1e-9, 1e9), (1e308, 50.0), (5.0, float("inf"))):
+                    m = cls(timeout_seconds=timeout, max_ros=max_ros, silent=True)
+                    m.register_function("t", lambda *a, **k: (_ for _ in ()).throw(ValueError("e" * 20000)))
+                    for i in range(45):
+                        for (src, pw) in (("1/0", None), ("t()", None), ("x" * 20000, None), ("zz", P.KREBS_CYCLE),
+                                          ("[", None), ("1 + 1", None), ("'a' * 70000", P.GLYCOLYSIS)):
+                            r = m.metabolize(src, pw)
+                            if Result is not None and not isinstance(r, Result):
+                                okb = False
+                    m2 = cls(max_ros=0.3, silent=True)
+                    for i in range(12):
+                        m2.metabolize("1/0")           # latches after three failures: guard results from then on
+            except BaseException as e:  # noqa
+                okb = False
+                notes.append(f"building a result raised {type(e).__name__} during a long history")
+            ATP = getattr(M, "ATP", None)
+            if okb and Result is not None and ATP is not None:
+                try:
+                    for x in (0.0, 0.1, 0.30000000000000004, 0.999, 1.0, 1.1, 4.5, 1e6, 1e308, float("inf")):
+                        for pw in (None,) + tuple(P):
+                            Result(success=False, error="e" * 50000, ros_level=x, pathway=pw)
+                            for eff in (0.1, 0.5, 1.0):
+                                for v in ("q" * 70000, [0] * 70000, 10 ** 5000, float("nan"), None, Opaque()):
+                                    if pw is not None:
+                                        a = ATP(value=v, pathway=pw, efficiency=eff, execution_time_ms=1e9 * x if x < 1e300 else x)
+                                        Result(success=True, atp=a, ros_level=x, pathway=pw)
+                except BaseException as e:  # noqa
+                    okb = False
+                    notes.append(f"constructing a result container raised {type(e).__name__}")
+        out["builds"] = okb
+    except BaseException as e:  # noqa
+        notes.append(f"behavioural container probe failed: {e!r}")
+    return out
+
+
 def syntactic_handler_facts(notes):
     """Call-graph analysis of the source.  Per fact: "covered" | "violated" | "not-recognised".  Follows private helpers
     (`self._x(...)`), tables of method names / bound methods (`getattr(self, name)(...)`, a call of a loop variable) and
@@ -537,6 +673,7 @@ def render(f) -> str:
     strs = lambda xs: "[" + ", ".join(_lean_str(x) for x in xs) + "]"
     L = []
     L.append("import Operon.Model.Mito")
+    L.append("import Operon.Model.MitoBox")
     L.append("/-! GENERATED by harness/vf/extract/e1.py from operon_ai/organelles/mitochondria.py — do not edit. -/")
     L.append("namespace Operon.Mito.Gen")
     L.append("")
@@ -573,6 +710,11 @@ def render(f) -> str:
     L.append("def strGuarded : Bool := " + b(f.get("str_guarded")))
     L.append("-- handler facts: behavioural " + json.dumps(f.get("handler_behavioural")) + "; call-graph cross-check "
              + json.dumps(f.get("handler_syntactic")))
+    bx = f.get("box") or {}
+    L.append("/-- the result containers (ATP, MetabolicResult, the str() of digest_glucose), probed through the real entry "
+             "points with sentinel values: the value reaches the caller as it was produced / the legacy text is exactly "
+             "str(value) / building a result never raises -/")
+    L.append("def box : Box := ⟨" + ", ".join(b(bx.get(k)) for k in ("value", "text", "builds")) + "⟩")
     L.append("def maxExpressionLength : Option Nat := " +
              ("none" if f.get("max_len") is None else f"some {f['max_len']}"))
     L.append("")
